@@ -809,6 +809,106 @@ unsafe fn seq(d: &[u8], ops: &str) -> String {
 }
 
 /// the same sequence through the Rust API
+/// the getters' view AFTER a call sequence in which operations may have failed (the handle keeps its RPU
+/// and records the error string; the getters must still present the RPU):
+/// `ok <rcs> e=<error string set> {"header":..,"mapping":..,"dm":..}`
+unsafe fn seqview(d: &[u8], ops: &str) -> String {
+    unsafe {
+        let h = parse_entry("rpu", d);
+        if !dovi_rpu_get_error(h).is_null() {
+            dovi_rpu_free(h);
+            return "err".to_string();
+        }
+        let mut rcs = Vec::new();
+        for op in split_ops(ops) {
+            let (name, arg) = match op.split_once(':') {
+                Some((a, b)) => (a, b),
+                None => (op, ""),
+            };
+            let rc = match name {
+                "mode" => dovi_convert_rpu_with_mode(h, arg.parse::<u64>().unwrap() as u8),
+                "offs" => {
+                    let v: Vec<u16> = arg.split(',').map(|x| x.parse().unwrap()).collect();
+                    dovi_rpu_set_active_area_offsets(h, v[0], v[1], v[2], v[3])
+                }
+                "rmmap" => dovi_rpu_remove_mapping(h),
+                "write" => {
+                    // a writer call in the middle of the sequence (a failing one records its error in the handle)
+                    let w = take_data(dovi_write_rpu(h));
+                    if w == "null" { -1 } else { 0 }
+                }
+                _ => return "bad-op".to_string(),
+            };
+            rcs.push(rc);
+        }
+        let e = !dovi_rpu_get_error(h).is_null();
+        let hd = dovi_rpu_get_header(h) as *const CHeader;
+        let mp = dovi_rpu_get_data_mapping(h) as *const CMapping;
+        let dm = dovi_rpu_get_vdr_dm_data(h) as *const CVdrDmData;
+        let res = if hd.is_null() {
+            format!("ok {} e={} null-header", rcs_str(&rcs), e as u8)
+        } else {
+            format!(
+                "ok {} e={} {{\"header\":{},\"mapping\":{},\"dm\":{}}}",
+                rcs_str(&rcs),
+                e as u8,
+                header_json(&*hd),
+                if mp.is_null() { "null".to_string() } else { mapping_json(&*mp) },
+                if dm.is_null() { "null".to_string() } else { dm_json(&*dm) }
+            )
+        };
+        if !hd.is_null() {
+            dovi_rpu_free_header(hd as *const dolby_vision::c_structs::RpuDataHeader);
+        }
+        if !mp.is_null() {
+            dovi_rpu_free_data_mapping(mp as *const dolby_vision::c_structs::RpuDataMapping);
+        }
+        if !dm.is_null() {
+            dovi_rpu_free_vdr_dm_data(dm as *const dolby_vision::c_structs::VdrDmData);
+        }
+        dovi_rpu_free(h);
+        res
+    }
+}
+
+/// the Rust API on the same sequence, continuing after failed operations: `ok <rcs> e=<any error> <serde JSON>`
+fn ops3json(d: &[u8], ops: &str) -> String {
+    let mut r = match DoviRpu::parse_rpu(d) {
+        Ok(r) => r,
+        Err(_) => return "err".to_string(),
+    };
+    let mut rcs = Vec::new();
+    let mut any_err = false;
+    for op in split_ops(ops) {
+        let name = op.split(':').next().unwrap_or("");
+        if name == "write" {
+            let res = std::panic::catch_unwind(std::panic::AssertUnwindSafe(|| r.write_rpu()));
+            match res {
+                Ok(Ok(_)) => rcs.push(0),
+                Ok(Err(_)) => {
+                    any_err = true;
+                    rcs.push(-1)
+                }
+                Err(_) => return "wpanic".to_string(),
+            }
+            continue;
+        }
+        if !matches!(name, "mode" | "offs" | "rmmap") {
+            return "bad-op".to_string();
+        }
+        let res = std::panic::catch_unwind(std::panic::AssertUnwindSafe(|| crate::ops_edit::apply_op(&mut r, op)));
+        match res {
+            Ok(Ok(())) => rcs.push(0),
+            Ok(Err(_)) => {
+                any_err = true;
+                rcs.push(-1)
+            }
+            Err(_) => return "oppanic".to_string(),
+        }
+    }
+    format!("ok {} e={} {}", rcs_str(&rcs), any_err as u8, serde_json::to_string(&r).unwrap())
+}
+
 fn ops3(d: &[u8], ops: &str) -> String {
     let mut r = match DoviRpu::parse_rpu(d) {
         Ok(r) => r,
@@ -873,6 +973,8 @@ pub fn run(parts: &[&str]) -> String {
         "capi.view" if parts.len() == 3 => unsafe { view(parts[1], &unhex(parts[2])) },
         "capi.seq" if parts.len() == 3 => unsafe { seq(&unhex(parts[1]), parts[2]) },
         "rpu.ops3" if parts.len() == 3 => ops3(&unhex(parts[1]), parts[2]),
+        "capi.seqview" if parts.len() == 3 => unsafe { seqview(&unhex(parts[1]), parts[2]) },
+        "rpu.ops3json" if parts.len() == 3 => ops3json(&unhex(parts[1]), parts[2]),
         "capi.layout" => layout(),
         _ => "bad-op".to_string(),
     }
